@@ -124,7 +124,7 @@ class Ctx:
 
     # ------------------------------------------------------------------ TLC
     def _tlc(self, spec, cfg, workers, timeout, extra_env=None, java_opts="", simulate=None, tag="tlc",
-             coverage=True, heap="8g"):
+             coverage=True, heap="4g"):
         meta = self.path("meta-" + tag)
         shutil.rmtree(meta, ignore_errors=True)
         os.makedirs(meta, exist_ok=True)
@@ -150,7 +150,7 @@ class Ctx:
             raise ToolError("TLC timed out after %ss on %s" % (timeout, os.path.basename(spec)))
         return p.returncode, text, dt
 
-    def tlc_mc(self, spec_rel, cfg_rel, workers=8, timeout=900, must_cover=(), tag=None, heap="8g",
+    def tlc_mc(self, spec_rel, cfg_rel, workers=8, timeout=900, must_cover=(), tag=None, heap="4g",
                keep_prints=False):
         """Model-check a design model.  An invariant violation here is an error of the
         model / predicate (tool error), never a violation of the code."""
@@ -181,7 +181,7 @@ class Ctx:
             return run, run_prints
         return run
 
-    def tlc_trace(self, spec_rel, cfg_rel, trace_file, timeout=1800, must_hit=(), tag=None, heap="6g",
+    def tlc_trace(self, spec_rel, cfg_rel, trace_file, timeout=1800, must_hit=(), tag=None, heap="4g",
                   env=None):
         """Validate a recorded ndjson trace against a *Trace.tla spec.  Returns (verdict, bads)
         where bads = [(line, run, ev, clause)]."""
